@@ -1043,6 +1043,52 @@ def r5_hash(rep, src):
                 rep.fail('C03.R5', h.site, 'hash ignores what equality ignores', '%s.__hash__ hashes the raw string' % cname, where=h.where)
 
 
+def r6_unbounded_conversions(rep, src):
+    """the comparison and the hash are defined for every valid version string; a digit run (or an epoch) of a valid version has no
+    maximum length, and int() of a decimal text of more than 4300 digits raises ValueError on CPython >= 3.11 (the integer string
+    conversion limit) -- so no int() may be applied to a whole digit run on the comparison / hash path (runs can be compared as
+    text: without leading zeros, by length, then lexicographically).  int() of a single character is bounded."""
+    mod = src.mod(M)
+    sites = ['NativeVersion._compare', 'NativeVersion._version_cmp_part', 'NativeVersion._version_cmp_string', 'NativeVersion._order',
+             'BaseVersion.__hash__', 'BaseVersion._hash_key_part', 'BaseVersion._hash_key']
+    n = 0
+    for q in sites:
+        fn = mod.funcs.get(q)
+        if fn is None:
+            continue
+        rep.saw_func(fn)
+        calls = [c for c in ast.walk(fn.node) if isinstance(c, ast.Call) and norm(c.func) == 'int' and c.args]
+        if not calls:
+            continue
+        n += 1
+        # a single character: the parameter of a function whose every call site passes an element of the iteration over a text
+        single_char = False
+        if q.endswith('._order'):
+            p0 = fn.params()[-1]
+            users = [c for f2 in mod.funcs.values() for c in ast.walk(f2.node) if isinstance(c, ast.Call) and norm(c.func).endswith('._order')]
+            mapped = [c for f2 in mod.funcs.values() for c in ast.walk(f2.node) if isinstance(c, ast.Call) and norm(c.func) == 'map' and c.args and norm(c.args[0]).endswith('._order')]
+            def elem_of_text(c):
+                par = getattr(c, '_parent', None)
+                while par is not None and not isinstance(par, (ast.ListComp, ast.GeneratorExp, ast.For)):
+                    par = getattr(par, '_parent', None)
+                if isinstance(par, (ast.ListComp, ast.GeneratorExp)):
+                    g = par.generators[0]
+                    return isinstance(g.target, ast.Name) and [norm(a_) for a_ in c.args] == [g.target.id] and isinstance(g.iter, ast.Name)
+                if isinstance(par, ast.For):
+                    return isinstance(par.target, ast.Name) and [norm(a_) for a_ in c.args] == [par.target.id] and isinstance(par.iter, ast.Name)
+                return False
+            single_char = bool(users or mapped) and all(elem_of_text(c) for c in users) and all(norm(c.args[0]) == p0 for c in calls)
+        what = 'int() of a digit run'
+        if single_char:
+            rep.ok('C03.R6', fn.site, what, 'applied to one character only', nontrivial=False)
+        else:
+            rep.fail('C03.R6', fn.site, what, '`%s` converts a whole digit run (or the epoch) to an integer: for a valid version with a run of more than 4300 digits (leading zeros '
+                     'included: "1." + "0" * 4300 + "1") every comparison operator, version_compare and hash() raise ValueError on CPython >= 3.11, where dpkg orders the '
+                     'same strings' % norm(calls[0])[:50], where='%s:%d' % (fn.module.relpath, calls[0].lineno))
+    if n < 2:
+        raise AnalysisError('only %d functions with integer conversions found on the comparison / hash path' % n)
+
+
 def check(src, rep, tier):
     rep.explanation = ('C03: (R1) operator table.  (R2) every path of NativeVersion._compare after the conversion prologue is enumerated with '
                        'linear facts on L = int(self.epoch or "0"), R = int(other.epoch or "0"): -1 only under L<R, 1 only under L>R, the '
@@ -1064,3 +1110,5 @@ def check(src, rep, tier):
     rep.guard('C03.R3', r3b_order_chain, src)
     rep.guard('C03.R4', r4_part_compare, src)
     rep.guard('C03.R5', r5_hash, src)
+    rep.need('C03.R6', 2)
+    rep.guard('C03.R6', r6_unbounded_conversions, src)
